@@ -22,7 +22,8 @@ static bool has_native(int t) { return t == 0 || t == 1 || t == 4 || t == 5; }
 
 // ------------------------------------------------------------------ generator
 std::string h_gen(Src& s) {
-    int ty = (int)s.choose(8); int nt = s.range(2, 4); bool rw = is_rw(ty);
+    int ty = (int)s.choose(8); if (drv_flag("--sleepy")) ty = s.flip() ? 4 : 5;   // tbb::mutex / tbb::rw_mutex: the types that put waiters to sleep
+    int nt = s.range(2, 4); bool rw = is_rw(ty);
     bool native = has_native(ty) && s.flip();
     std::string o = std::string("mutex ") + TYPES[ty] + " threads=" + std::to_string(nt) + " native=" + (native ? "1" : "0") + "\n";
     for (int t = 0; t < nt; t++) {
